@@ -1514,7 +1514,11 @@ func (self *LockDB) GetLockManager(command *protocol.LockCommand) *LockManager {
 		if fastLockManager != nil && fastLockManager.lockKey == command.LockKey && atomic.LoadUint32(&fastLockManager.refCount) != 0xffffffff {
 			return fastLockManager
 		}
-		if atomic.LoadUint32(&fastValue.count) <= 1 {
+		if fastLockManager != nil {
+			if atomic.LoadUint32(&fastValue.count) <= 1 {
+				return nil
+			}
+		} else if atomic.LoadUint32(&fastValue.count) == 0 {
 			return nil
 		}
 	} else if atomic.LoadUint32(&fastValue.count) == 0 {
